@@ -350,7 +350,7 @@ Proof.
   apply rotate_base_polar; [exact Hacc|apply step_dir_unit; apply Hin|exact Hg].
 Qed.
 
-(** for the repaired rotate: on the cone for EVERY step direction *)
+(** for the candidate repair [rotate_new] (NOT in the tree): on the cone for EVERY step direction *)
 Lemma cerenkov_on_cone_repaired min_acc k es ns d s p s' :
   0 < min_acc -> ckv_inputs_ok es ns d -> Forall canonical s ->
   ckv_photon_with (rotate_new min_acc) k es ns d (ckv_construct k es ns d) s = Some (p, s') ->
